@@ -2,7 +2,8 @@
 EXTENDS AskaryanRel
 CONSTANT MaxLevel
 FracsAll == {<<1, 0>>, <<3, 2>>, <<0, 1>>}
-MovesAll == {3, -5, 1}
+MovesAll == {3, -5, 1, 70, -60}
+BothAll == {3, -5, 1000000}
 Angles == {0, 2, -4, 20, -40, 80, 100, 101, 102}
 LevelBound == TLCGet("level") <= MaxLevel
 ====
